@@ -19,13 +19,14 @@ NAMES = ['A', 'B', 'C', 'D', 'D0', 'Tz', 'D3', 'G', 'Pr', 'P', 'Pk', 'Pw', 'Mv',
          'R1', 'R2', 'R3', 'Hw', 'Pl', 'R1i', 'Hwi', 'Pli', 'R1v', 'Hwv', 'Plv', 'AI', 'DI', 'D0I', 'D3I', 'TzI', 'GT',
          'CT', 'PrT', 'PT', 'PkT', 'MvT', 'RsT', 'RvT', 'BdT', 'R1T', 'R3T', 'R1iT', 'PlT', 'I2v', 'Iqu', 'Im',
          'H2', 'Hh', 'Hq', 'Hm', 'AB', 'Mc', 'McT', 'Mn',
-         'Dl', 'DlI', 'Prl', 'PrlT', 'BDl', 'BRl', 'BCl', 'Il', 'Hl', 'Mp', 'Mq', 'Ma', 'Mb', 'Ob', 'ObT']
+         'Dl', 'DlI', 'Prl', 'PrlT', 'BDl', 'BRl', 'BCl', 'Il', 'Hl', 'Mp', 'Mq', 'Ma', 'Mb', 'Ob', 'ObT', 'Pp', 'PpT', 'Pn', 'BRt', 'BCt']
 # products of two in the quick tier: one or two representatives per class and per space
-PAIRS_QUICK = ['A', 'C', 'D', 'D0', 'Tz', 'G', 'GT', 'Pr', 'PrT', 'P', 'PT', 'Pk', 'PkT', 'Mv', 'MvT', 'Mvi', 'Rs', 'RsT', 'Rv', 'Rn', 'Bd',
+PAIRS_QUICK = ['A', 'C', 'D', 'D0', 'Tz', 'D3', 'G', 'GT', 'Pr', 'PrT', 'P', 'PT', 'Pk', 'PkT', 'Mv', 'MvT', 'Mvi', 'Rs', 'RsT', 'Rv', 'Rn', 'Bd',
                'R1', 'R3', 'R1T', 'Hw', 'Pl', 'R1i', 'Hwi', 'Pli', 'AI', 'DI', 'I2v', 'Iqu', 'H2', 'Hq', 'Mc', 'McT', 'Ma', 'Mb', 'Mp', 'Mq',
-               'Dl', 'Prl', 'BDl', 'BRl', 'BCl', 'Hl', 'Ob']
+               'Dl', 'Prl', 'BDl', 'BRl', 'BCl', 'Hl', 'Ob', 'Pp', 'Pn', 'BRt', 'BCt']
 SOLO = ['Dq', 'DqI', 'Dh']       # extreme parameter values (tiny / huge diagonal entries): used alone only
 POOL_QUICK = ['A', 'D', 'AI', 'DI', 'I2v', 'H2', 'G', 'GT', 'Pr', 'R1', 'R1T', 'Hw', 'Pl', 'Tz', 'D0']
+POOL2_EXTRA = ['BCl', 'BCt', 'BRl', 'BRt']      # pytree-valued blocks over different containers: one- and two-slot templates only
 POOL_THOROUGH = POOL_QUICK + ['B', 'C', 'PrT', 'P', 'R2', 'Mv', 'Rs', 'D3', 'Hh']
 
 CFG = """INIT Init
@@ -34,8 +35,9 @@ CONSTANTS
   Names = {names}
   PairNames = {pairs}
   Solo = {solo}
-  Pool = {pool}
-  PoolBig = {{"A", "D", "G", "GT", "R1", "D0"}}
+  Pool = {pool2}
+  Pool3 = {pool}
+  PoolBig = {{"A", "D", "G", "GT", "R1", "D0", "BCt"}}
   First = {first}
   Templates = {{{tpl}}}
 INVARIANT TransposeIsAdjoint
@@ -54,7 +56,7 @@ CHECK_DEADLOCK FALSE
 def generate(tier: str, templates=None) -> fx.TlcResult:
     pool = POOL_QUICK if tier == 'quick' else POOL_THOROUGH
     tpls = templates or [1, 2, 3, 4, 5, 6, 7, 8, 9, 10, 11]
-    everything = sorted(set(NAMES) | set(SOLO) | set(pool))
+    everything = sorted(set(NAMES) | set(SOLO) | set(pool) | set(POOL2_EXTRA))
     fifths = [pool[i::5] for i in range(5)]
     thirds = [pool[i::3] for i in range(3)]
     # shards: (templates, atoms allowed in the first slot); the three-slot templates are split over the first slot
@@ -65,7 +67,7 @@ def generate(tier: str, templates=None) -> fx.TlcResult:
 
     def cfg(i: int) -> str:
         return CFG.format(names=tla_set(NAMES), pairs=tla_set(PAIRS_QUICK if tier == 'quick' else NAMES), solo=tla_set(SOLO),
-                          pool=tla_set(pool), first=tla_set(groups[i][1]), tpl=', '.join(map(str, groups[i][0])))
+                          pool=tla_set(pool), pool2=tla_set(pool + POOL2_EXTRA), first=tla_set(groups[i][1]), tpl=', '.join(map(str, groups[i][0])))
 
     res = fx.run_tlc_sharded('MC_Terms', cfg, len(groups), workers=2, parallel=12)
     if res.violated:
@@ -82,6 +84,29 @@ def _retype(obj, dt: str):
     if isinstance(obj, list):
         return [_retype(v, dt) for v in obj]
     return obj
+
+
+# float-parameter classes whose declared output structure follows the promotion (the classes declared square -
+# scalar, diagonal - keep the input dtype: parameters wider than the data are outside C05's quantifier)
+FLOAT_PARAM_KINDS = {'dense', 'bdiagb'}
+RELABEL_KINDS = {'index', 'pack', 'mvax', 'reshape', 'ravel', 'id'}
+
+
+def _has_kind(term, kinds) -> bool:
+    return term.get('k') in kinds or any(_has_kind(c, kinds) for c in term.get('ch', []))
+
+
+def mixed_ok(case) -> bool:
+    """Subjects replayed on int32 data with float32 parameters: an atom of a dtype-agnostic class alone, or such an
+    atom applied after a relabelling operator (whose output keeps the integer dtype)."""
+    if case.get('refused') or case['names'][3] != 'plain':
+        return False
+    term = case['term']
+    if case['names'][0] == '1':
+        return term['k'] in FLOAT_PARAM_KINDS | RELABEL_KINDS
+    if case['names'][0] == '2' and term['k'] == 'comp' and len(term['ch']) == 2:
+        return term['ch'][0]['k'] in FLOAT_PARAM_KINDS | RELABEL_KINDS and term['ch'][1]['k'] in RELABEL_KINDS
+    return False
 
 
 def _ones(struct, scale=1.0):
@@ -142,6 +167,13 @@ def execute(case: dict) -> dict:
     o = out['obs']
     term = _retype(case['term'], dt) if dt != 'f32' else case['term']
     b = terms.Builder()
+    mixed = dt == 'i32'
+    if mixed:
+        # integer data, floating-point parameters: the operator maps int32 leaves to float32 leaves (dtype promotion);
+        # only the clauses that do not relate an operator to its transpose / inverse are judged in this mode
+        b.float_params = True
+        b.param_scale = 0.5           # non-integer parameter values: a cast to the data dtype would show
+        tol = 2e-4
     if case.get('refused'):
         try:
             b.build(term)
@@ -158,6 +190,9 @@ def execute(case: dict) -> dict:
     want = terms.mat_to_float(case['den'])
     ins = _retype(case['ins'], dt)
     outs = _retype(case['outs'], dt)
+    if mixed and _has_kind(case['term'], FLOAT_PARAM_KINDS):
+        outs = _retype(case['outs'], 'f32')          # promote(int32 data, float32 parameters)
+        want = want * 0.5                            # exactly one float-parameter factor (mixed_ok)
     rng = np.random.default_rng(int(case['id'], 16) % (2 ** 32))
 
     def guarded(name, fn):
@@ -191,7 +226,7 @@ def execute(case: dict) -> dict:
             o['in_promoted'] = np.dtype(op.in_promoted_dtype) == np.dtype(jnp.result_type(*leaves_in))
             o['out_promoted'] = np.dtype(op.out_promoted_dtype) == np.dtype(jnp.result_type(*leaves_out))
             # derived operators report the structures implied by their parts
-            if case.get('solverfree'):
+            if case.get('solverfree') and not mixed:
                 t = op.T
                 o['T_structs'] = (t.in_structure() == op.out_structure()) and (t.out_structure() == op.in_structure())
                 yt = t.mv(_ones(t.in_structure()))
@@ -212,7 +247,7 @@ def execute(case: dict) -> dict:
                 o['generic_ok'], o['generic_err'] = _close(gm, want, tol, rel=True)
             # linearity witnesses: integer combinations with mixed signs
             lin_ok = True
-            for (a, c) in ((2.0, -3.0), (-1.0, 1.0), (0.5, 4.0)):
+            for (a, c) in (((2, -3), (-1, 1), (3, 4)) if mixed else ((2.0, -3.0), (-1.0, 1.0), (0.5, 4.0))):
                 x = _rand_int_tree(op.in_structure(), rng)
                 y = _rand_int_tree(op.in_structure(), rng)
                 lhs = op(jax.tree.map(lambda u, v: a * u + c * v, x, y))
@@ -492,14 +527,21 @@ def run(prop: str, tier: str, seed: int) -> int:
     sel = select(prop, cases)
     rng = random.Random(seed)
     if tier == 'quick':
-        cap = {'C03': 1200, 'C04': 1000, 'C05': 900, 'C06': 900, 'C08': 1200, 'C10': 900}[prop]
+        cap = {'C03': 1800, 'C04': 1500, 'C05': 1200, 'C06': 1200, 'C08': 1600, 'C10': 900}[prop]
         picked, strata = fx.stratified_sample(
             sel, lambda c: (c['names'][0], c['names'][2], c['names'][3], c.get('term', {}).get('k')), 40, seed)
+        # products, sums and differences of two operands: all of them (a shortcut keyed on a property shared by both
+        # operands - both symmetric, both diagonal, same class - shows only on particular pairs of classes)
+        have = {c['id'] for c in picked}
+        two = [c for c in sel if c['names'][0] in ('2', '3', '4') and c['id'] not in have]
         atoms = [c for c in sel if c['names'][0] == '1']          # every atom alone, every mode
         # every product of two operators of rule-related kinds (the pairs a binary rule may look at)
         ruley = {'mvax', 'reshape', 'ravel', 'RT', 'T', 'index', 'pack', 'rot', 'rotT', 'brow', 'bdiag', 'bcol', 'inv', 'dinv'}
         atoms += [c for c in sel if c['names'][0] == '2' and c['names'][3] == 'plain' and c['term']['k'] == 'comp'
                   and all(ch['k'] in ruley for ch in c['term']['ch'])]
+        atoms += two
+        atoms += [c for c in sel if c.get('refused') and c.get('near')]     # refusals decided by the tree structure alone
+        atoms = list({c['id']: c for c in atoms}.values())
         ids = {c['id'] for c in atoms}
         rest = [c for c in picked if c['id'] not in ids]
         if len(atoms) + len(rest) > cap:
@@ -523,9 +565,14 @@ def run(prop: str, tier: str, seed: int) -> int:
         modes = [(False, 'f32'), (True, 'f64')]
     accepted = 0
     nrun = 0
+    if prop == 'C04':
+        modes = modes + [(False, 'i32')]
     for x64, dt in modes:
         sub = [dict(c, dt=dt) for c in jobs]
-        if tier == 'quick' and (x64 or dt != 'f32') and prop != 'C05':
+        if dt == 'i32':
+            # integer data with floating-point parameters: every suitable subject TLC emitted, not only the sample
+            sub = [dict(c, dt=dt, groups=groups, generic=(prop == 'C04'), id=c['id']) for c in sel if mixed_ok(c)]
+        if tier == 'quick' and (x64 or dt == 'f64') and prop != 'C05':
             sub = sub[::3]
         res = fx.replay('termcheck', 'execute', sub, x64=x64, procs=fx.NPROC,
                         chunksize=max(4, len(sub) // (fx.NPROC * 3)))
